@@ -107,7 +107,9 @@ def make_schema(variant=0):
     schema.add("wb", fields.TEXT(analyzer=anab, phrase=True, chars=(variant % 2 == 0), field_boost=2.0))
     # (... whose term vectors are in another format than its postings: positions)
     from whoosh import formats
-    schema.add("wf", fields.TEXT(analyzer=anab, phrase=False, vector=formats.Positions()))
+    # (and a field boost of 1/16: with a document boost of 1/4 a posting weighs 1/64 - six decimals, a weight that
+    # survives float32 but not a codec that writes "readable" numbers - ContentCheck!FieldScale)
+    schema.add("wf", fields.TEXT(analyzer=anab, phrase=False, vector=formats.Positions(), field_boost=0.0625))
     # a dynamic field: indexed, scorable, with vectors, not stored
     schema.add("*_dyn", fields.TEXT(analyzer=ana, phrase=True, vector=(variant % 2 == 0)), glob=True)
     return schema
